@@ -27,10 +27,10 @@ CHECKS = {
          "TermDuration=10, InterimDuration=3; a mid-term parent that is not a deputy is recorded, not asserted; header times below 10^7 s (where GetCorrectMiner panics by design of its ms guard) are outside the statement's 'instants not before the parent'.",
          "DESIGN.md section 4 C13"),
  "C02": ("exploration",
-         "exhaustive enumeration of a mutation-operator table x signing modes on real nodes, reference validity predicate + honest re-execution by the block factory, before/after snapshot comparison",
-         "Every single mutation operator (61 operators over parent, miner, roots, height, gas, time, extra, transactions, change logs, deputy list; 9 of them let the block factory EXECUTE a changed transaction list, so that the block is consistent in every root and wrong only in the transaction it carries: expired, lifetime 1801 s, replayed, duplicated, wrong chain, box sub-transaction outside its window, and the two valid edges) x 6 signing modes (kept, re-signed by the miner / another deputy / an outsider, junk, empty) x {roots recomputed or not} on 7 (chain state, valid candidate block) pairs (fresh, 3-block chain, two forks, after a stable advance; on head and on inner / short-fork parents), thorough: all pairs of operators from different groups. accepted => validRef (parent known, height, time window, extra, signed by the reference-rotation deputy with its miner address, tx windows and replays, equality with an honest re-execution by the factory); rejected => (head, stable, stored blocks + confirm counts, watched accounts at head, pool, tx-guard answers) unchanged; a panic is a violation.",
-         "The engine's goroutines are gated through the source overlay and run to completion at fixed points under the node's own key. 3 genesis deputies, 10 s slots, observer node, wall clock far later than honest block times (the now+1 s tolerance edge is not enumerated); gasLimit and extra are the miner's free choices; snapshot-height candidate blocks not yet enumerated.",
-         "DESIGN.md section 4 C02"),
+         "exhaustive enumeration of a mutation-operator table x signing modes x positions of the node's virtual clock on real nodes; reference validity predicate (reference rotation, reference term list, independent top-N election) + honest re-execution by the block factory; before/after snapshot comparison",
+         "Every single mutation operator (123 operators in 17 groups: parent, miner, roots, height, gas, time, extra, txs, txs-executed incl. well-formedness, logs, deputies, signer = whole blocks mined by other keys, signature encoding, body confirms, known blocks, snapshot deputy list) x 7 signing modes x {tx/log roots recomputed or not; DeputyRoot kept or recomputed} on 17 (chain state, valid block) pairs from 10 chain states (ordinary heights, forks, after a stable advance, a pruned fork, and a term change: snapshot height, the block after it, first and second block of the new term); the valid block and all time operators at 10 positions of the node's virtual clock around the block's timestamp (+-2 s, ms 000/999: both sides of the one-second tolerance); thorough adds all operator pairs from different groups (re-signed by the miner / next deputy; at the two clock positions around the tolerance; body-only pairs with the original signature) and every operator at every clock position. Oracles: accepted => reference-valid (incl. reference rotation, reference term list, snapshot list = independent top-N of the parent's state with its Merkle root, equality with an honest re-execution); rejected => node unchanged (head, stable, stored blocks with confirms, 26 accounts, pool, tx guard, term lists); reference-valid, judgeable and sent as an honest miner sends it => accepted; an accepted snapshot block must be able to become stable and load the reference term; a panic is a violation. quick 34 454 cases, thorough 360 389.",
+         "Observer node, 3 deputy seats, 10 s slots, TermDuration 5 / InterimDuration 2, one fork through one term change; the engine's goroutines and timers are gated through the source overlay and run to completion at fixed points under the node's own key. Not enumerated: a deputy as node under test, sibling snapshot blocks, unregistering candidates / deposit refunds / non-zero term rewards at the reward block, operator triples. The third oracle reads the one-second tolerance as granted, not merely permitted.",
+         "DESIGN.md section 4 C02, section 10.3"),
  "C01": ("exploration",
          "bounded exhaustive enumeration of ordered transaction lists x discard candidates x block gas limits x controlled map iteration orders on real miner and validator paths; cross-node differential oracle (long-running miner vs restarted miner vs restarted validator vs fresh validator with other prior history vs redo of the change logs)",
          "Every ordered list without repeats of length <= 2 (quick) / <= 3 (thorough) over a 25-transaction menu covering all 11 tx types (valid, failing, reverting, self-destructing, value-forwarding, box-wrapped, gas-payer, multi-signature, contract-creating / calling) is mined by the real BlockAssembler.MineBlock on a prefix state; with each of 4 discard-only candidates inserted at every position the mined block must be bit-identical; under each of 6 controlled map iteration orders (source overlay pass maprange: all n! orders of maps with <= 3 keys, 6 spread-out ones above) the mined block must be bit-identical and restarted validators running under them must accept it; a miner restarted from disk (no prior executions on this parent) must mine the same block as the long-running one; for every block gas limit at which the pool runs dry exactly at one of the (sub-)transactions, alone and with every discard candidate at every position, the block must equal the one mined from exactly the packaged transactions and be accepted; a validator whose data directory was copied and reopened (process restart) and a fresh validator that has just executed and rejected a corrupted sibling must accept the block and hold the same account data, field for field, for all touched + watched addresses; redoing the published logs must give the attributes redo defines.",
